@@ -48,6 +48,7 @@ from unified_planning.model import (
     Oversubscription,
     TemporalOversubscription,
     AbstractProblem,
+    ProblemKind,
 )
 from unified_planning.plans import ActionInstance
 from typing import (
@@ -677,3 +678,68 @@ def split_all_ands(exp_list: List[FNode]) -> List[FNode]:
                 end_list.append(exp)
         start_list = temp_list
     return end_list
+
+
+def rewritten_problem_kind(problem_kind: ProblemKind) -> ProblemKind:
+    """
+    Returns the `ProblemKind` that a problem of the given kind can have after it has been rebuilt the way
+    every compiler of this package rebuilds it: expressions simplified and the actions that can never be
+    applied (their conditions simplify to `False`) dropped.
+
+    Such a rewriting introduces no new construct, but the kind classifies some constructs by properties
+    that the rewriting changes, so the returned kind is the given one plus:
+
+    * `SIMPLE_NUMERIC_PLANNING`, when the problem is `GENERAL_NUMERIC_PLANNING` (what made it general can be
+      simplified or dropped);
+    * the `STATIC_FLUENTS_IN_*` counterpart of every `FLUENTS_IN_*` feature (a fluent becomes static when the
+      actions modifying it are dropped);
+    * `INT_FLUENTS`, `REAL_FLUENTS` and `SIMPLE_NUMERIC_PLANNING`, when fluents appear in durations or action
+      costs (a numeric fluent used only there is not counted among the fluents of the problem; it is as soon
+      as those uses are dropped or replaced by the value of the fluent).
+
+    It is the starting point of the `resulting_problem_kind` of the compilers.
+
+    :param problem_kind: The kind of the problem given to a compiler.
+    :return: The kind of the rewritten problem, a superset of the given kind.
+    """
+    new_kind = problem_kind.clone()
+    if new_kind.has_general_numeric_planning():
+        new_kind.set_problem_type("SIMPLE_NUMERIC_PLANNING")
+    if new_kind.has_fluents_in_boolean_assignments():
+        new_kind.set_effects_kind("STATIC_FLUENTS_IN_BOOLEAN_ASSIGNMENTS")
+    if new_kind.has_fluents_in_numeric_assignments():
+        new_kind.set_effects_kind("STATIC_FLUENTS_IN_NUMERIC_ASSIGNMENTS")
+    if new_kind.has_fluents_in_object_assignments():
+        new_kind.set_effects_kind("STATIC_FLUENTS_IN_OBJECT_ASSIGNMENTS")
+    if new_kind.has_fluents_in_durations():
+        new_kind.set_expression_duration("STATIC_FLUENTS_IN_DURATIONS")
+    if new_kind.has_fluents_in_actions_cost():
+        new_kind.set_actions_cost_kind("STATIC_FLUENTS_IN_ACTIONS_COST")
+    if (
+        new_kind.has_static_fluents_in_durations()
+        or new_kind.has_static_fluents_in_actions_cost()
+    ):
+        new_kind.set_fluents_type("INT_FLUENTS")
+        new_kind.set_fluents_type("REAL_FLUENTS")
+        new_kind.set_problem_type("SIMPLE_NUMERIC_PLANNING")
+    return new_kind
+
+
+def grounded_problem_kind(problem_kind: ProblemKind) -> ProblemKind:
+    """
+    Returns the `ProblemKind` that a problem of the given kind can have after its actions have been grounded
+    and its static fluents replaced by their values: the kind of the rewritten problem (see
+    :func:`rewritten_problem_kind`) plus both number types wherever a static fluent can be replaced by its
+    value, which need not have the declared type of the fluent (a real fluent can have an integer value).
+
+    :param problem_kind: The kind of the problem given to a grounder.
+    :return: The kind of the grounded problem, a superset of the given kind.
+    """
+    new_kind = rewritten_problem_kind(problem_kind)
+    if new_kind.has_static_fluents_in_durations():
+        new_kind.set_expression_duration("INT_TYPE_DURATIONS")
+        new_kind.set_expression_duration("REAL_TYPE_DURATIONS")
+    if new_kind.has_static_fluents_in_actions_cost():
+        new_kind.set_actions_cost_kind("INT_NUMBERS_IN_ACTIONS_COST")
+        new_kind.set_actions_cost_kind("REAL_NUMBERS_IN_ACTIONS_COST")
+    return new_kind
